@@ -521,11 +521,16 @@ func (r *Resolver) resolveOne(ctx context.Context, name, typ string) ([]any, err
 	}
 	res, ttl, err := r.resolveOneNoCache(ctx, name, typ)
 	if err != nil {
-		cache.Remove(key)
+		// The entry stays: other lookups may be waiting for it, and it
+		// is not served unless it holds an answer that has not expired.
 		return nil, err
 	}
 	v.expiration = timeNow().Add(time.Second * time.Duration(ttl))
 	v.result = res
+	// The entry may have been evicted in the meantime.
+	if cur, ok := cache.Peek(key); !ok || cur != v {
+		cache.Add(key, v)
+	}
 	return res, nil
 }
 
